@@ -33,4 +33,9 @@ def Disjoint (a n b k : Nat) : Prop := a + n ≤ b ∨ b + k ≤ a
 def lowerB (b : Byte) : Byte := if 65 ≤ b.toNat ∧ b.toNat ≤ 90 then b + 32#8 else b
 def upperB (b : Byte) : Byte := if 97 ≤ b.toNat ∧ b.toNat ≤ 122 then b - 32#8 else b
 
+/-- what strdup/strndup assume of a successful `malloc(size)`: the block
+`[ret, ret+size)` is mapped in the new memory and nothing else changed -/
+def AllocOk (m m1 : Mem) (ret size : Nat) : Prop :=
+  Mapped m1 ret size ∧ SameOutside m m1 ret size
+
 end Igris.C08
